@@ -43,6 +43,10 @@ type Recorder struct {
 	SuperfluousCodes []int
 	FirstWriteSeq    int64
 	Writes           int
+	// Codes is every status code handed to WriteHeader, in call order (recording only). net/http's server panics on
+	// a code outside 100..999 ("invalid WriteHeader code"); this recorder stores it and carries on, so a monitor
+	// that wants to know must look here (Status stays 0 after WriteHeader(0) and a later Write makes it 200).
+	Codes []int
 }
 
 func NewRecorder() *Recorder { return &Recorder{HeaderMap: http.Header{}} }
@@ -51,6 +55,7 @@ func (r *Recorder) Header() http.Header { return r.HeaderMap }
 
 func (r *Recorder) WriteHeader(code int) {
 	r.WriteHeaderCalls++
+	r.Codes = append(r.Codes, code)
 	if r.Status != 0 {
 		r.SuperfluousCodes = append(r.SuperfluousCodes, code)
 		return
